@@ -429,3 +429,90 @@ def mon_c15(spec, run):
 
 
 MONITORS.update({"C15": mon_c15, "C16": mon_c16})
+
+
+# ------------------------------------------------------------------------------------------------ C13
+def library_probes(trace):
+    """[(lo_seq, hi_seq, write_time)] of keep-alive probes the library generated itself: the sender wrote a line that differs from
+    the item it took from its queue.  The flag is set somewhere in (lo_seq, hi_seq)."""
+    out = []
+    last_get = None
+    for e in trace:
+        if e["th"] != "S":
+            continue
+        if e["k"] == "qget":
+            last_get = e
+        elif e["k"] in ("clock", "write", "write_rejected") and last_get is not None:
+            if e["k"] == "clock":
+                hi = e["seq"]
+                continue_flag = True
+            if e["k"] in ("write", "write_rejected"):
+                text = bytes.fromhex(e["data"])[:-2].decode("utf-8", "replace")
+                if last_get["item"] != text:
+                    out.append((last_get["seq"], e["seq"], e["t"]))
+                last_get = None
+    return out
+
+
+def mon_c13(spec, run):
+    """keep-alive suppression: withheld ⊆ may-withhold, must-withhold ⊆ withheld, everything else delivered"""
+    import re
+    bad = []
+    tr = run.trace
+    probes = library_probes(tr)
+    lines = lines_by_read(tr)
+    watch = spec.get("pre_register", [None])[0]
+    if watch is None or any(c["op"][0] == "unreg" and c["op"][1] == watch for c in calls(tr)):
+        return bad
+    lc = lifecycle(tr)
+    end_seq = min([x for x in (lc["close_call"], lc["fault"], lc["thread_exc"]) if x is not None], default=10 ** 12)
+    groups = {}
+    for i, (rseq, wend, text) in enumerate(lines):
+        if wend >= end_seq:
+            continue
+        groups.setdefault((rseq, wend), []).append(text)
+    prev = None          # (rseq, wend) of the previous group
+    for (rseq, wend), ls in sorted(groups.items()):
+        texts = {}
+        for text in ls:
+            texts[text] = texts.get(text, 0) + 1
+        for text, n in texts.items():
+            m = re.fullmatch(r"@([^:]+?):([^=]+?)=(.*)", text, re.S)
+            is_mn = bool(m and m.group(1) == "SYS" and m.group(2) == "MODELNAME")
+            if m:
+                delivered = sum(1 for e in tr if e["k"] == "msg_cb" and e["cb"] == watch and rseq < e["seq"] < wend and (e["su"], e["fn"], e["val"]) == m.groups())
+            else:
+                st = "UNDEFINED" if text == "@UNDEFINED" else "RESTRICTED" if text == "@RESTRICTED" else "OK"
+                delivered = sum(1 for e in tr if e["k"] == "msg_cb" and e["cb"] == watch and rseq < e["seq"] < wend and e["su"] is None and e["status"] == st)
+            withheld = n - delivered
+            if withheld < 0:
+                bad.append(("extra", f"line {text!r} was delivered {delivered} times for {n} arrival(s)"))
+                continue
+            if not is_mn:
+                if withheld > 0 and len(texts) == 1:
+                    bad.append(("swallowed", f"line {text!r} (not a SYS:MODELNAME reply) was withheld from the message callbacks"))
+                continue
+            prev_read = prev[0] if prev else 0
+            prev_end = prev[1] if prev else 0
+            # may: some probe's flag-setting interval overlaps (read of the previous line, end of this line's processing)
+            may = any(lo < wend and hi > prev_read for lo, hi, _ in probes)
+            # must: a probe was flagged strictly after the previous line was completely processed and before this line was read,
+            #       and this is the only line of its read
+            must = len(ls) == 1 and any(lo > prev_end and hi < rseq for lo, hi, _ in probes)
+            if withheld > 0 and not may:
+                bad.append(("swallowed", f"a MODELNAME reply (read at t={_t(tr, rseq) / 1e6:.6f}s) was withheld although no keep-alive probe was started since the previous line was received"))
+            if must and withheld == 0:
+                tp = [t for lo, hi, t in probes if lo > prev_end and hi < rseq][-1]
+                bad.append(("leaked", f"the reply to the keep-alive probe written at t={tp / 1e6:.6f}s (next line to arrive, nothing in between) was delivered to the message callbacks"))
+        prev = (rseq, wend)
+    return bad
+
+
+def _t(trace, seq):
+    for e in trace:
+        if e["seq"] == seq:
+            return e["t"]
+    return 0
+
+
+MONITORS["C13"] = mon_c13
